@@ -62,6 +62,26 @@ class Case:
         self.paths += len(paths)
         self.decisions += sum(len(p.decisions) for p in paths)
 
+    def concrete_trace(self, replay_fn, spec, key, reapply=None):
+        """Model validation: the same scenario, with committed pseudo-random double values, through the UNPATCHED library (float64 arrays,
+        scipy Rotation) and the harness's own oracle.  Guards the modelling assumption that object-dtype arrays of terms take the same
+        code paths as float64 arrays (dtype / isinstance introspection in the code under test).  A violation seen here is a real run of
+        the real code and is reported like a replayed counterexample; it is not part of the solver claim."""
+        install.uninstall()
+        try:
+            bad, detail = replay_fn(spec)
+        except Exception as e:  # noqa
+            self.note_inconclusive("concrete-trace", f"{type(e).__name__}: {e}")
+            return
+        finally:
+            install.install()
+            if reapply is not None:
+                reapply()
+        self.validated += 1
+        if bad and key not in self._found_keys:
+            self._found_keys.add(key)
+            self.candidates.append({"key": key, "replay": spec, "origin": "concrete-trace"})
+
     def witness(self, assumptions):
         """is the antecedent satisfiable?  ('sat' / 'unsat' / 'unknown')"""
         key = tuple(a.get_id() for a in assumptions)
